@@ -1,2 +1,34 @@
-#!/bin/sh
-exit 0
+#!/bin/bash
+# One-time setup after a fresh restore (offline): build libpmcrt, the instrumented pika libraries,
+# the site tables and all harness binaries. Checks rebuild incrementally afterwards.
+set -e
+cd "$(dirname "$0")"
+mkdir -p build evidence replays
+./scripts/build_rt.sh
+./scripts/build_pika.sh "$PWD/build/pika-mc"
+python3 - <<'PY'
+import sys, subprocess, os
+sys.path.insert(0, '.')
+from checks import CHECKS
+V = os.getcwd()
+need_mpi = False
+for pid, spec in CHECKS.items():
+    for p in spec['parts']:
+        if p.get('pika_build') == 'pika-mpi-mc': need_mpi = True
+if need_mpi:
+    subprocess.run([f'{V}/scripts/build_pika.sh', f'{V}/build/pika-mpi-mc', 'mpi'], check=True)
+targets = {}
+for pid, spec in CHECKS.items():
+    for p in spec['parts']:
+        if p.get('kind') == 'script': continue
+        b = p.get('pika_build', 'pika-mc')
+        out = f"{V}/build/" + ('h' if b == 'pika-mc' else 'h-' + b)
+        key = (b, out, p.get('extra', ''), p.get('extralibs', ''))
+        targets.setdefault(key, []).append(f"{out}/{p['bin']}")
+for (b, out, extra, extralibs), ts in targets.items():
+    cmd = ['make', '-s', '-j16', '-C', f'{V}/harness', f'B={V}/build/{b}', f'OUT={out}']
+    if extra: cmd.append('EXTRA=' + extra)
+    if extralibs: cmd.append('EXTRALIBS=' + extralibs)
+    subprocess.run(cmd + sorted(set(ts)), check=True)
+PY
+echo "setup done"
